@@ -54,8 +54,6 @@ Inductive err :=
 | EPartNotInProblem   (* ParticleTypeNotInProblem *)
 | EPartNotInCell      (* ParticleTypeNotInCell *)
 | EListRemove         (* ValueError: list.remove(x): x not in list  (ParticleNode.remove) *)
-| ENoneUniverse       (* AttributeError: 'NoneType' object has no attribute 'number' *)
-| ENoneVolume         (* AttributeError: 'NoneType' object has no attribute 'value' *)
 | EFillComplex        (* ValueError: Fill can not be in the data block ... *)
 | ENumberConflict     (* NumberConflictError *)
 | EKey                (* KeyError *)
@@ -126,7 +124,7 @@ Fixpoint iset_existing (q : particle) (v : Z) (g : list igroup) : list igroup :=
 (* __setitem__ after its checks; [linked]: the cell-level Importance has _problem *)
 Definition iset (linked : bool) (mode : list particle) (q : particle) (v : Z) (g : list igroup) : list igroup :=
   if mem q (ikeys g) then iset_existing q v g
-  else g ++ [([q], mkT v (if linked then mode else [q]) [q])].   (* _generate_default_cell_tree(particle) *)
+  else g ++ [([q], mkT v [q] [q])].   (* _generate_default_cell_tree(particle): labelled with this particle *)
 
 (* __delitem__ (q is a key) *)
 Fixpoint idel (q : particle) (g : list igroup) : list igroup :=
@@ -155,6 +153,7 @@ Fixpoint fmt_loop (mode : list particle) (keys : list particle) (g : list igroup
   | [] => Ok []
   | q :: ks =>
       if mem q printed then fmt_loop mode ks g printed
+      else if negb (mem q mode) then fmt_loop mode ks g printed     (* only the particles of the problem *)
       else
         match ifind q g with
         | None => fmt_loop mode ks g printed
@@ -182,15 +181,14 @@ Definition fmt_imp_cell (mode : list particle) (g : list igroup) : res (list (li
 (* ------------------------------------------------------------------ cells *)
 Inductive vvol :=
 | VSet (z : Z)     (* ValueNode with a value *)
-| VNone            (* ValueNode with value None (never set, or a jump pushed from the data block) *)
-| VDeleted.        (* del cell.volume: the node itself is None *)
+| VNone.           (* ValueNode with value None (never set, deleted, or a jump pushed from the data block) *)
 
 Record cell := mkC {
   c_num : Z;
   c_imp : list igroup;  c_imp_set : bool;           (* *_set = set_in_cell_block of the cell-level instance *)
   c_vol : vvol;         c_vol_set : bool;
   c_u : option Z;       c_u_set : bool;             (* None: no Universe object (a cell made by Cell()) *)
-  c_lat : option Z;     c_lat_set : bool;           (* c_lat_set also says: the value node IS the node of the cell's tree *)
+  c_lat : option Z;     c_lat_set : bool;
   c_fill : option Z;    c_fill_tr : bool;  c_fill_set : bool
 }.
 
@@ -241,7 +239,7 @@ Definition link_flags (c : cell) (f : flags) : flags :=
   fold_left (fun f k => if set_of c k then set_flag f k false else f) all_cls f.
 
 (* ------------------------------------------------------------------ writing *)
-Inductive wval := WV (z : Z) | WNoneLit.      (* WNoneLit: the four letters "None" *)
+Inductive wval := WV (z : Z).
 
 Inductive entry :=
 | EImp (ps : list particle) (v : Z)
@@ -258,7 +256,7 @@ Definition one_entry (c : cell) (k : cls) : list entry :=
   | CVol => match c_vol c with VSet z => [EOne CVol (WV z)] | _ => [] end
   | CU => match c_u c with Some u => if Z.eqb u 0 then [] else [EOne CU (WV u)] | None => [] end
   | CLat => match c_lat c with
-            | Some z => [EOne CLat (if c_lat_set c then WV z else WNoneLit)]   (* LatticeInput._update_cell_values: pass *)
+            | Some z => [EOne CLat (WV z)]       (* LatticeInput._update_cell_values puts the value's node in the tree *)
             | None => []
             end
   | CFill => match c_fill c with Some z => [EOne CFill (WV z)] | None => [] end
@@ -285,9 +283,9 @@ Definition dcard := (option particle * list (option Z))%type.
 Definition tree_value (k : cls) (c : cell) : res (option Z) :=
   match k with
   | CImp => Ok None
-  | CVol => match c_vol c with VSet z => Ok (Some z) | VNone => Ok None | VDeleted => Err ENoneVolume end
+  | CVol => match c_vol c with VSet z => Ok (Some z) | VNone => Ok None end
   | CU => match c_u c with
-          | None => Err ENoneUniverse
+          | None => Ok None                    (* a cell that was never given a universe is in universe 0 *)
           | Some u => Ok (if Z.eqb u 0 then None else Some u)
           end
   | CLat => Ok (c_lat c)
@@ -438,12 +436,8 @@ Definition e_set_imp (q : particle) (v : Z) : edit := fun linked mode c =>
   else Ok (set_imp c (iset linked mode q v (c_imp c))).
 Definition e_del_imp (q : particle) : edit := fun _ _ c =>
   if mem q (ikeys (c_imp c)) then Ok (set_imp c (idel q (c_imp c))) else Err EKey.
-Definition e_set_vol (v : Z) : edit := fun _ _ c =>
-  match c_vol c with
-  | VDeleted => Err ENoneVolume            (* setter: node = None; node.value = ... *)
-  | _ => Ok (set_vol c (VSet v))
-  end.
-Definition e_del_vol : edit := fun _ _ c => Ok (set_vol c VDeleted).
+Definition e_set_vol (v : Z) : edit := fun _ _ c => Ok (set_vol c (VSet v)).
+Definition e_del_vol : edit := fun _ _ c => Ok (set_vol c VNone).     (* the deleter clears the node's value *)
 Definition e_set_u (u : Z) : edit := fun _ _ c => Ok (set_u c (Some u)).
 Definition e_set_lat (v : option Z) : edit := fun _ _ c => Ok (set_lat c v).
 Definition e_set_fill (v : option Z) : edit := fun _ _ c => Ok (set_fill c v).
@@ -738,7 +732,8 @@ Fixpoint nodup_p (l : list particle) : bool :=
 (* the classifiers of the trees partition the keys: a tree's classifier names the particles that share the tree,
    only particles that have an importance here, and every particle it names has a tree with the same classifier
    (true of trees parsed from a cell card, of trees pushed from a data-block card, and of any of them after a
-   value was set; false of a tree made by __setitem__ on a cell that has a _problem: its classifier is MODE) *)
+   value was set or a particle was split off; it can only be lost by `del cell.importance.<particle>` on a
+   particle that shares a tree) *)
 Definition parts_of (q : particle) (g : list igroup) : list particle :=
   match ifind q g with Some t => t_parts t | None => [] end.
 Definition seteq (a b : list particle) : bool := andb (subset a b) (subset b a).
@@ -746,8 +741,10 @@ Definition group_ok (g : list igroup) (gr : igroup) : bool :=
   andb (andb (subset (fst gr) (t_parts (snd gr))) (subset (t_parts (snd gr)) (t_order (snd gr))))
        (forallb (fun o => andb (mem o (ikeys g)) (seteq (parts_of o g) (t_parts (snd gr)))) (t_parts (snd gr))).
 Definition imp_parts_ok (g : list igroup) : bool := andb (nodup_p (ikeys g)) (forallb (group_ok g) g).
-(* no importance is held for a particle outside MODE (the blank instance's neutron tree) *)
-Definition imp_keys_ok (mode : list particle) (g : list igroup) : bool := subset (ikeys g) mode.
+(* a tree that holds the importance of a MODE particle names MODE particles only (else self[other] raises
+   ParticleTypeNotInProblem while the card is formatted: 'imp:n,p=1' in a 'mode p' problem) *)
+Definition imp_keys_ok (mode : list particle) (g : list igroup) : bool :=
+  forallb (fun gr : igroup => orb (negb (existsb (fun q => mem q mode) (fst gr))) (subset (t_parts (snd gr)) mode)) g.
 Definition imp_cell_ok (s : state) : bool :=
   orb (f_imp (s_flags s))
       (forallb (fun c => andb (imp_parts_ok (c_imp c)) (imp_keys_ok (s_mode s) (c_imp c))) (s_cells s)).
@@ -755,21 +752,11 @@ Definition imp_cell_ok (s : state) : bool :=
 Definition imp_data_ok (s : state) : bool :=
   orb (negb (f_imp (s_flags s)))
       (forallb (fun c => subset (s_mode s) (ikeys (c_imp c))) (s_cells s)).
-Definition lat_ok (s : state) : bool :=
-  orb (f_lat (s_flags s))
-      (forallb (fun c => match c_lat c with Some _ => c_lat_set c | None => true end) (s_cells s)).
-Definition vol_ok (s : state) : bool :=
-  orb (negb (andb (f_vol (s_flags s)) (worth (s_cells s) CVol)))
-      (forallb (fun c => match c_vol c with VDeleted => false | _ => true end) (s_cells s)).
-Definition u_ok (s : state) : bool :=
-  orb (negb (andb (f_u (s_flags s)) (worth (s_cells s) CU)))
-      (forallb (fun c => match c_u c with None => false | Some _ => true end) (s_cells s)).
 (* FILL with a transform cannot go to the data block (ValueError: a documented refusal) *)
 Definition fill_ok (s : state) : bool :=
   orb (negb (andb (f_fill (s_flags s)) (worth (s_cells s) CFill)))
       (forallb (fun c => negb (c_fill_tr c)) (s_cells s)).
-Definition clean (s : state) : bool :=
-  andb (imp_cell_ok s) (andb (imp_data_ok s) (andb (lat_ok s) (andb (vol_ok s) (andb (u_ok s) (fill_ok s))))).
+Definition clean (s : state) : bool := andb (imp_cell_ok s) (andb (imp_data_ok s) (fill_ok s)).
 
 (* ------------------------------------------------------------------ wire *)
 Open Scope string_scope.
@@ -779,7 +766,7 @@ Definition show_err (e : err) : string :=
   match e with
   | EMalformed => "MalformedInputError" | EIndex => "IndexError" | EReadCrash => "AttributeError"
   | EPartNotInProblem => "ParticleTypeNotInProblem" | EPartNotInCell => "ParticleTypeNotInCell"
-  | EListRemove => "ValueError" | ENoneUniverse => "AttributeError" | ENoneVolume => "AttributeError"
+  | EListRemove => "ValueError"
   | EFillComplex => "ValueError" | ENumberConflict => "NumberConflictError" | EKey => "KeyError"
   | ENoTarget => "KeyError"
   end.
@@ -885,7 +872,7 @@ Definition show_api (a : apicell) : string :=
   show_Z (a_num a) ++ ";" ++ sep "." (map (fun x => show_nat (fst x) ++ ":" ++ show_Z (snd x)) (a_imp a))
   ++ ";" ++ show_oz (a_vol a) ++ ";" ++ show_oz (a_u a) ++ ";" ++ show_oz (a_lat a) ++ ";" ++ show_oz (a_fill a).
 
-Definition show_wval (v : wval) : string := match v with WV z => show_Z z | WNoneLit => "N" end.
+Definition show_wval (v : wval) : string := match v with WV z => show_Z z end.
 Definition show_entry (e : entry) : string :=
   match e with
   | EImp ps v => "i:" ++ show_parts ps ++ ":" ++ show_Z v
@@ -933,9 +920,7 @@ Definition run_Place (req : string) : string :=
                    (if f_imp (s_flags s) then "" else
                       (if forallb (fun c => imp_parts_ok (c_imp c)) (s_cells s) then "" else "P")
                       ++ (if forallb (fun c => imp_keys_ok (s_mode s) (c_imp c)) (s_cells s) then "" else "M"))
-                   ++ (if imp_data_ok s then "" else "C") ++ (if lat_ok s then "" else "L")
-                   ++ (if vol_ok s then "" else "V") ++ (if u_ok s then "" else "U")
-                   ++ (if fill_ok s then "" else "F") in
+                   ++ (if imp_data_ok s then "" else "C") ++ (if fill_ok s then "" else "F") in
                  if String.eqb d "" then "-" else d)
           end
       | _, _, _, _ => "parse:err"
